@@ -3,11 +3,54 @@ PID = 'C06'
 SPEC = dict(
     driver='c06_hmac',
     extra=['ref/ref.c', 'ref/ref_sig.c', 'ref/ref_pdu.c', 'simnet.c'],
-    rule='tbd',
-    bounds=dict(quick='tbd', thorough='tbd'),
-    technique='tbd',
-    level_text='tbd',
-    level_note='tbd',
-    require_outcomes=[],
-    assumptions=[],
+    rule='Two enumerations at the transport seam (simulated sockets / fake libcurl). '
+         'Part A (requests): service {aggregation, extension, aggregator configuration, extender configuration} x PDU version {2,1} x HMAC algorithm '
+         '{SHA-256, SHA-384, SHA-512, RIPEMD-160} x key length {1,2,31,32,33,63,64,65,127,128,129,1000,65535} x login id {1 char, 64 chars, UTF-8 2-byte} x client '
+         '{blocking TCP, blocking HTTP, async TCP, async HTTP} x content (aggregation: 4 hash algorithms x level {0,1,255}; extension: without / with publication '
+         'time). The bytes handed to the transport are re-parsed by the reference request parser: header present and first, login id as configured, MAC present and '
+         'last, MAC algorithm = configured, MAC = reference HMAC over the authenticated range (v2: every byte before the digest; v1: header TLV + payload TLV), '
+         'request content unchanged. One case = one (service, version, algorithm, key, login, client) with all contents. '
+         'Part B (responses): the reference server answers the request really emitted with an authentic response (aggregation, extension, aggregator and '
+         'extender configuration; PDU v2 and v1) and the driver applies one deviation: every single-bit flip, every truncation length, every splice point with a '
+         'second authentic response under the same key, MAC under 5 other keys, MAC under each other algorithm (pinned / pinning removed after the request left / '
+         'unpinned with a wrong key), other PDU version, header removed, MAC removed, MAC not last, header last, digest bit flipped, and for the 2-endpoint HA '
+         'service: one endpoint bad, each endpoint answered under the other endpoint\'s key - through blocking TCP/HTTP (KSI_Signature_signAggregated, '
+         'KSI_Signature_extendTo, KSI_receiveAggregatorConfig, KSI_receiveExtenderConfig), the asynchronous service (TCP/HTTP) and the high-availability service '
+         '(1 and 2 endpoints, TCP/HTTP). Oracle per run: content delivered => the reference authenticates the bytes that were sent (header and MAC present, MAC = '
+         'reference HMAC under the endpoint key and the configured algorithm over the received bytes, same PDU version) AND the delivered content (serialized '
+         'signature / configuration values) is identical to the content of the authentic response; a timeout of the asynchronous request counts as refusal. '
+         'Every case first runs the authentic exchange, which must deliver the content the reference put into the response. Flip / truncation / splice cases are '
+         'chunks of 256 bit positions / 128 lengths.',
+    bounds=dict(
+        quick='Part A: all 13 key lengths x SHA-256 x blocking TCP x 3 login ids, plus all 4 algorithms x keys {1,64,65,65535} x 4 clients x 2 login ids; 5 of the 12 '
+              'aggregation contents. Part B: authentic + all structural deviations for every (kind, version, client); every bit of every response kind (v2 and v1) '
+              'through blocking TCP, async HTTP and the 2-endpoint HA service over TCP, and of the v2 aggregation response through all 8 clients; every truncation '
+              'through 4 clients; every splice point through 3 clients (about 158 000 flipped, 19 000 truncated, 14 000 spliced responses)',
+        thorough='Part A: full product (4992 cases, 12/2/1 contents each). Part B: every bit / truncation / splice point of every response kind (v2, v1) through all '
+                 '8 clients; additionally every bit with the MAC under SHA-384, SHA-512 and RIPEMD-160 through blocking TCP and async HTTP; authentic responses for '
+                 '4 algorithms x 5 key lengths (about 500 000 flipped responses)'),
+    technique='exhaustive enumeration of request configurations and of single-bit / truncation / splice / structural response deviations at the transport seam on the real '
+              'client code; independent reference HMAC, PDU parser and response authenticator as oracle',
+    level_text='Every element of the stated finite space is executed on the compiled library: each request configuration is captured at the transport seam and its MAC '
+               'recomputed by an independent HMAC over the byte range the statement defines; each authentic response and each of its single-bit flips, prefixes and '
+               'splices (exhaustive per response) plus a fixed menu of key / algorithm / version / structure deviations is driven to completion through the blocking, '
+               'asynchronous and high-availability clients, and delivery of content is allowed only when the reference authenticator accepts the bytes sent and the '
+               'content equals the authentic content. Nothing is sampled.',
+    level_note='Trusted: OpenSSL HMAC/digests behind ref_hmac, the reference PDU model (harness/ref/ref_pdu.c) and the response authenticator in the driver, the simulated '
+               'transport. Bounded: one response per (kind, version) (one tree shape, fixed request content), single-bit flips only (no multi-bit combinations), keys up to '
+               '65535 bytes on requests and up to 1000 bytes on responses. "Without pinning" is modelled by setting the context HMAC option to KSI_HASHALG_INVALID_VALUE '
+               'after the request left (a request cannot be built without a configured algorithm); then a valid MAC under another supported algorithm may be delivered.',
+    require_outcomes=['req:aggr:v2:alg1:ok', 'req:aggr:v1:alg1:ok', 'req:ext:v2:alg1:ok', 'req:ext:v1:alg1:ok', 'req:aconf:v2:alg1:ok', 'req:econf:v2:alg1:ok',
+                      'req:econf:v1:*:nothing-sent', 'req:*:alg2:ok', 'req:*:alg4:ok', 'req:*:alg5:ok',
+                      'resp:authentic:delivered', 'resp:authentic:alg2:delivered', 'resp:authentic:alg4:delivered', 'resp:authentic:alg5:delivered',
+                      'resp:flip:v2:refused', 'resp:flip:v1:refused', 'resp:flip:v1:*', 'resp:trunc:v2:refused', 'resp:trunc:v1:refused', 'resp:splice:v2:refused',
+                      'resp:other-key:v2:refused', 'resp:other-key:v1:refused', 'resp:other-alg:v2:refused', 'resp:other-alg:v1:refused', 'resp:other-alg-unpinned:v2:*',
+                      'resp:unpinned-bad-key:v2:refused', 'resp:other-version:v2:refused', 'resp:other-version:v1:refused', 'resp:no-header:v2:refused',
+                      'resp:no-mac:v2:refused', 'resp:no-mac:v1:refused', 'resp:mac-not-last:v2:refused', 'resp:bad-mac:v2:refused', 'resp:ha-cross-key:v2:refused',
+                      'resp:ha-one-endpoint-bad:v2:*'],
+    assumptions=['the fake transport delivers exactly what the handler produced',
+                 'for a stream transport (TCP) the received PDU is the prefix delimited by the outer TLV header',
+                 'an unauthenticated error PDU or an unmatched asynchronous response ends the request with an error / timeout, which satisfies "error and never delivered content"',
+                 'in PDU v1 only the outer PDU header and the MAC element header are outside the authenticated range; a flip there may be delivered when the content is identical'],
+    deadline=dict(quick=600, thorough=2400),
 )
